@@ -486,10 +486,44 @@ _NP_RETURNING_NONE = ("np.random.seed", "np.copyto", "np.put", "np.place", "np.p
                       "np.seterr", "np.testing.assert_allclose", "np.testing.assert_array_equal")
 
 
+NONNULL_REPO_FUNCTIONS = set()       # simple names of module-level repository functions that never return None (set per Repo build)
+
+
+def never_returns_none(fnode):
+    """every exit of the function is a `return <value that cannot be None>` or a raise: the value is an operator result, a display,
+    a numpy call, or a local that the straight-line body has bound to such a value or *stored through* (`r[mask] = 0` raises on None)"""
+    body = [st for st in fnode.body if not (isinstance(st, ast.Expr) and isinstance(st.value, ast.Constant))]
+    if not body or any(isinstance(n, (ast.Yield, ast.YieldFrom)) for n in walk_own(fnode)):
+        return False
+    if not _ends_in_return(body) and not isinstance(body[-1], ast.Raise):
+        return False
+    proven = set()
+    for st in body:                       # unconditional top-level statements only
+        if isinstance(st, ast.Assign) and len(st.targets) == 1:
+            t = st.targets[0]
+            if isinstance(t, ast.Name):
+                (proven.add if _nonnull_expr(st.value) else proven.discard)(t.id)
+            elif isinstance(t, ast.Subscript) and isinstance(t.value, ast.Name):
+                proven.add(t.value.id)
+        elif isinstance(st, ast.AugAssign) and isinstance(st.target, ast.Name):
+            proven.add(st.target.id)
+        elif isinstance(st, (ast.If, ast.For, ast.While, ast.With, ast.Try)):
+            for x in ast.walk(st):
+                if isinstance(x, ast.Name) and isinstance(x.ctx, (ast.Store, ast.Del)):
+                    proven.discard(x.id)
+    for r in walk_own(fnode):
+        if isinstance(r, ast.Return):
+            if r.value is None:
+                return False
+            if not (_nonnull_expr(r.value) or (isinstance(r.value, ast.Name) and r.value.id in proven and r in body)):
+                return False
+    return True
+
+
 def _nonnull_expr(e):
     if isinstance(e, ast.Call):
         f_ = U(e.func)
-        if f_ in _NONNULL_CALLS:
+        if f_ in _NONNULL_CALLS or f_ in NONNULL_REPO_FUNCTIONS:
             return True
         # numpy functions return arrays / scalars (the few procedures that return None are listed); Generator draws likewise
         if f_.startswith("np.") and f_ not in _NP_RETURNING_NONE and not f_.startswith("np.testing."):
